@@ -51,7 +51,7 @@ def import_xdoctest():
 # trace injector: asynchronous faults at the k-th in-scope line event
 # ----------------------------------------------------------------------------
 
-PEER_SCOPE = {'op', 'emit', 'say', 'aop', '_write', 'point', 'names', 'modglobal',
+PEER_SCOPE = {'op', 'emit', 'emitop', 'deco', 'say', 'aop', '_write', 'point', 'names', 'modglobal',
               '__aenter__', '__aexit__', '__anext__', '_raise_via'}
 
 
@@ -216,10 +216,17 @@ class RecNS(dict):
         super().clear()
 
 
+def watched_name(k):
+    """names whose final binding is compared with the reference program: what
+    the doctests bind (sim_*) and the module-level names they rebind, shadow or
+    delete (G, SIMCONST, simshadow, simdeco)"""
+    return isinstance(k, str) and (k.startswith('sim') or k in ('G', 'SIMCONST'))
+
+
 def snapshot_bindings(ns):
     out = {}
     for k, v in ns.items():
-        if k.startswith('sim_') or k == 'G':
+        if watched_name(k):
             try:
                 if callable(v) and hasattr(v, '__name__'):
                     out[k] = '<callable>'
